@@ -556,6 +556,19 @@ func runC15Raw(r *simkit.Run, cfg c15Cfg, ph int, sent []byte, mu *sync.Mutex, s
 	path := map[string]string{sigLogs: "/v1/logs", sigTraces: "/v1/traces", sigMetrics: "/v1/metrics", sigProfiles: "/v1development/profiles"}[cfg.Signal]
 	url := fmt.Sprintf("http://127.0.0.1:%d%s", ph, path)
 	method, ctype, body := http.MethodPost, "application/x-protobuf", sent
+	// the same media type spelled with a parameter or in another letter case is still that media type
+	variant := r.Tape.Draw(4)
+	spell := func(ct string) string {
+		switch variant {
+		case 1:
+			return ct + "; charset=utf-8"
+		case 2:
+			return strings.ToUpper(ct[:1]) + ct[1:12] + strings.ToUpper(ct[12:13]) + ct[13:]
+		case 3:
+			return ct + " ;  q=1"
+		}
+		return ct
+	}
 	var hdr = map[string]string{}
 	if cfg.Auth && cfg.Raw != "no-credentials" {
 		hdr["Authorization"] = "Bearer s3cr3t"
@@ -567,6 +580,7 @@ func runC15Raw(r *simkit.Run, cfg c15Cfg, ph int, sent []byte, mu *sync.Mutex, s
 		if cfg.Transport == "http-json" {
 			ctype, body = "application/json", []byte(`{"resource`)
 		}
+		ctype = spell(ctype)
 		want = 400
 	case "wrong-content-type":
 		ctype = "text/plain"
@@ -575,10 +589,13 @@ func runC15Raw(r *simkit.Run, cfg c15Cfg, ph int, sent []byte, mu *sync.Mutex, s
 		method = http.MethodGet
 		want = 405
 	case "no-credentials":
+		ctype = spell(ctype)
 		want = 401
 	case "empty-payload":
+		ctype = spell(ctype)
 		want = 200
 	}
+	r.Logf("raw content type %q", ctype)
 	r.Count("fault.raw_" + cfg.Raw)
 	r.Nontrivial = true
 	req, err := http.NewRequest(method, url, bytes.NewReader(body))
